@@ -456,6 +456,81 @@ Proof.
   destruct (seqb (f_name f) k); [reflexivity | apply IH].
 Qed.
 
+(* ---------- well-formedness of what the encoder prints ---------- *)
+Lemma NoDup_str_nodup : forall l, NoDup l -> str_nodup l = true.
+Proof.
+  induction l as [|x r IH]; simpl; intro H; [reflexivity|]. inversion H; subst.
+  apply andb_true_iff. split; [apply negb_true_iff; apply str_in_false; assumption | apply IH; assumption].
+Qed.
+
+Lemma json_wf_obj_intro : forall ms, NoDup (map fst ms) -> (forall k v, In (k, v) ms -> json_wf v = true) ->
+  json_wf (JObj ms) = true.
+Proof.
+  intros ms Hnd Hv. simpl. apply andb_true_iff. split; [apply NoDup_str_nodup; exact Hnd|].
+  apply forallb_forall. intros [k v] Hin. simpl. apply (Hv k v Hin).
+Qed.
+
+Lemma obj_keys_nodup : forall fs, NoDup (map (fun e : string * bool * pval => fst (fst e)) fs) ->
+  NoDup (map fst (obj_req fs ++ obj_opt fs)).
+Proof.
+  induction fs as [|[[n b] x] r IH]; simpl; intro H; [constructor|].
+  inversion H as [|? ? Hni Hnd]; subst. specialize (IH Hnd).
+  assert (Nin : ~ In n (map fst (obj_req r ++ obj_opt r))).
+  { rewrite map_app. intro F. apply in_app_or in F. destruct F as [F|F]; apply Hni; [apply obj_req_keys | apply obj_opt_keys]; exact F. }
+  destruct b.
+  - simpl. constructor; assumption.
+  - destruct x; try exact IH;
+      (rewrite map_app; simpl;
+       apply (proj2 (NoDup_Add (Add_app n (map fst (obj_req r)) (map fst (obj_opt r)))));
+       rewrite <- map_app; split; [exact IH | exact Nin]).
+Qed.
+
+Lemma obj_vals : forall fs k e, In (k, e) (obj_req fs ++ obj_opt fs) -> exists b x, In (k, b, x) fs /\ e = py_encode x.
+Proof.
+  intros fs k e H. apply in_app_or in H. destruct H as [H|H].
+  - induction fs as [|[[n b] x] r IH]; simpl in *; [contradiction|]. destruct b; simpl in H.
+    + destruct H as [H|H]; [inversion H; subst; exists true, x; split; [left; reflexivity | reflexivity]|].
+      destruct (IH H) as [b' [x' [A B]]]. exists b', x'. split; [right; exact A | exact B].
+    + destruct (IH H) as [b' [x' [A B]]]. exists b', x'. split; [right; exact A | exact B].
+  - induction fs as [|[[n b] x] r IH]; simpl in *; [contradiction|]. destruct b.
+    + destruct (IH H) as [b' [x' [A B]]]. exists b', x'. split; [right; exact A | exact B].
+    + destruct x; simpl in H;
+        try (destruct H as [H|H];
+             [ inversion H; subst; eexists false, _; split; [left; reflexivity | reflexivity]
+             | destruct (IH H) as [b' [x' [A B]]]; exists b', x'; split; [right; exact A | exact B] ]).
+      destruct (IH H) as [b' [x' [A B]]]. exists b', x'. split; [right; exact A | exact B].
+Qed.
+
+Lemma pall_inv : forall {A} (l : list (pres A)) vs, pall l = POk vs -> Forall2 (fun r v => r = POk v) l vs.
+Proof.
+  induction l as [|x r IH]; simpl; intros vs H.
+  - inversion H. constructor.
+  - destruct x as [a|w|w|w]; destruct (pall r) as [l'|w'|w'|w']; try discriminate.
+    inversion H; subst. constructor; [reflexivity | apply IH; reflexivity].
+Qed.
+
+(* a literal never contains an object *)
+Lemma py_lit_json_wf : forall d j, py_lit_json d = POk j -> json_wf j = true.
+Proof.
+  fix IH 1. intros d j H. destruct d as [|b|gt z|gt r|s|l|kvs|gt r]; simpl in H; try (inversion H; reflexivity); try discriminate.
+  - destruct (seqb gt "json.Number"); [inversion H; reflexivity|].
+    destruct (parse_decimal r) as [[m e]|]; [inversion H; reflexivity | discriminate].
+  - destruct (pall (map py_lit_json l)) as [js| | |] eqn:PA; try discriminate. inversion H; subst j.
+    apply pall_inv in PA. simpl. clear H.
+    revert js PA. induction l as [|x r IHl]; intros js PA; inversion PA; subst; [reflexivity|].
+    simpl. rewrite (IH x _ H1). simpl. apply IHl. assumption.
+Qed.
+
+Lemma const_json_wf : forall pctx t c, const_json pctx t = Some c -> json_wf c = true.
+Proof.
+  intros pctx t c H. unfold const_json, lit_json in H.
+  destruct t; try discriminate.
+  - destruct (locate_object pctx pkg name); [|discriminate]. destruct (o_type o); try discriminate.
+    destruct (find (fun ev => dyn_eqb (ev_value ev) value) vs); [|discriminate].
+    destruct (py_lit_json (ev_value e)) eqn:E; try discriminate. inversion H; subst. apply (py_lit_json_wf _ _ E).
+  - destruct (py_lit_json value) eqn:E; try discriminate. inversion H; subst. apply (py_lit_json_wf _ _ E).
+Qed.
+
 (* ---------- the class case ---------- *)
 Section ClassCase.
   Variable pctx : schemas.
@@ -464,7 +539,8 @@ Section ClassCase.
 
   Definition member_ok (p : string) (t : ty) (v : json) : Prop :=
     valid p t v = true -> safe p t v = true ->
-    exists x, dec p t v = POk x /\ le_null_u v (py_encode x) = true /\ (v <> JNull -> x <> PNone).
+    exists x, dec p t v = POk x /\ le_null_u v (py_encode x) = true /\ (v <> JNull -> x <> PNone) /\
+              json_wf (py_encode x) = true.
 
   Hypothesis Hnull : forall p t, recursing pctx t = false -> dec p t JNull = POk PNone.
 
@@ -482,7 +558,7 @@ Section ClassCase.
     class_safe pctx safe p sfs (JObj ms) = true ->
     (forall k v, In (k, v) ms -> forall t, member_ok p t v) ->
     exists x, class_from_json pctx dec p n sfs (JObj ms) = POk x /\
-              le_null_u (JObj ms) (py_encode x) = true /\ x <> PNone.
+              le_null_u (JObj ms) (py_encode x) = true /\ x <> PNone /\ json_wf (py_encode x) = true.
   Proof.
     intros p n sfs ms Hndm Hv Hs HIH.
     unfold class_valid in Hv. apply andb_true_iff in Hv. destruct Hv as [Hv Hreq]. apply andb_true_iff in Hv. destruct Hv as [Hndf Hmem].
@@ -519,12 +595,13 @@ Section ClassCase.
       rewrite (field_by_name_nodup sfs fld Hndf Hin). rewrite C. reflexivity. }
     (* every decoded member decodes *)
     assert (DecOk : forall k v fld, In (k, v) ms -> field_by_name (decoded_fields sfs) k = Some fld ->
-                      exists x, dec p (f_type fld) v = POk x /\ le_null_u v (py_encode x) = true /\ (v <> JNull -> x <> PNone)).
+                      exists x, dec p (f_type fld) v = POk x /\ le_null_u v (py_encode x) = true /\ (v <> JNull -> x <> PNone) /\
+                                json_wf (py_encode x) = true).
     { intros k v fld Hin F. destruct (Dec k fld F) as [F1 C]. destruct (Mem k v Hin) as [g [G1 [G2 [G3 G4]]]].
       rewrite F1 in G1. inversion G1; subst g. rewrite C in G4.
       destruct G4 as [[E N]|[NE [V S]]].
-      - subst v. unfold null_member_safe in N. apply andb_true_iff in N. destruct N as [N _]. apply andb_true_iff in N. destruct N as [N _].
-        apply negb_true_iff in N. exists PNone. split; [apply Hnull; exact N|]. split; [reflexivity|]. intro H; exfalso; apply H; reflexivity.
+      - subst v. unfold null_member_safe in N. apply andb_true_iff in N. destruct N as [N _].
+        apply negb_true_iff in N. exists PNone. split; [apply Hnull; exact N|]. split; [reflexivity|]. split; [intro H; exfalso; apply H; reflexivity | reflexivity].
       - apply (HIH k v Hin (f_type fld)); assumption. }
     (* the arguments *)
     assert (Args : class_from_json pctx dec p n sfs (JObj ms) =
@@ -572,11 +649,13 @@ Section ClassCase.
                   rewrite (field_by_name_nodup sfs fld Hndf Hin) in G1; inversion G1; subst g; rewrite C in G4;
                   destruct G4 as [[E N]|[NE [V S]]];
                   [ subst v; unfold null_member_safe in N;
-                    apply andb_true_iff in N; destruct N as [N N3]; apply andb_true_iff in N; destruct N as [N1 N2];
+                    apply andb_true_iff in N; destruct N as [N1 N3];
                     apply negb_true_iff in N1; rewrite (Hnull p _ N1); simpl;
-                    unfold has_dflt in N2; apply negb_true_iff in N2; apply negb_false_iff in N2; rewrite N2;
-                    destruct (is_complex_kind (f_type fld)) eqn:CK; [simpl in N3; rewrite N3; reflexivity | reflexivity]
-                  | destruct (HIH _ _ FM (f_type fld) V S) as [x [Hx [_ Hnn]]]; rewrite Hx; simpl;
+                    destruct (is_complex_kind (f_type fld)) eqn:CK;
+                    [ simpl in N3; apply andb_true_iff in N3; destruct N3 as [N3 N2];
+                      unfold has_dflt in N2; apply negb_true_iff in N2; apply negb_false_iff in N2; rewrite N2, N3; reflexivity
+                    | reflexivity ]
+                  | destruct (HIH _ _ FM (f_type fld) V S) as [x [Hx [_ [Hnn _]]]]; rewrite Hx; simpl;
                     specialize (Hnn NE); destruct (is_complex_kind (f_type fld)); destruct x; try reflexivity;
                     exfalso; apply Hnn; reflexivity ]).
         all: specialize (Sabs fld Hin); apply orb_true_iff in Sabs; destruct Sabs as [S|S];
@@ -587,11 +666,13 @@ Section ClassCase.
                unfold has_dflt in S4; apply negb_true_iff in S4; apply negb_false_iff in S4; rewrite S4, S2; simpl;
                destruct (is_complex_kind (f_type fld)); reflexivity ]. }
     rewrite (pall_map_ok _ (field_value p ms) sfs FV). cbv beta iota delta [pbind].
-    eexists. split; [reflexivity|]. split; [|unfold mk_obj; discriminate].
-    unfold mk_obj. rewrite combine_fields. rewrite py_encode_obj. rewrite le_null_u_obj.
+    eexists. split; [reflexivity|].
+    unfold mk_obj. rewrite combine_fields.
     set (fs' := map (fun fld => (f_name fld, f_required fld, field_value p ms fld)) sfs).
     assert (NDf : NoDup (map (fun e : string * bool * pval => fst (fst e)) fs')).
     { unfold fs'. rewrite map_map. simpl. exact Hndf. }
+    split; [|split; [discriminate|]].
+    { rewrite py_encode_obj. rewrite le_null_u_obj.
     apply andb_true_iff. split.
     - apply le_members_intro. intros k a Hin. rewrite (find_member_obj fs' k NDf). unfold fs'. rewrite emitted_fields.
       destruct (Mem k a Hin) as [fld [F1 [F2 [F3 F4]]]]. rewrite F1. unfold field_value.
@@ -602,9 +683,9 @@ Section ClassCase.
         apply is_pnone_true in PN. apply praw_pnone in PN. subst c. apply le_null_u_to_null in Hle. contradiction.
       + rewrite F3. rewrite (find_member_nodup ms k a Hndm Hin).
         destruct F4 as [[E N]|[NE [V S]]].
-        * subst a. unfold null_member_safe in N. apply andb_true_iff in N. destruct N as [N _]. apply andb_true_iff in N. destruct N as [N _].
+        * subst a. unfold null_member_safe in N. apply andb_true_iff in N. destruct N as [N _].
           apply negb_true_iff in N. rewrite (Hnull p _ N). simpl. destruct (f_required fld); reflexivity.
-        * destruct (HIH k a Hin (f_type fld) V S) as [x [Hx [Hle Hnn]]]. rewrite Hx. simpl.
+        * destruct (HIH k a Hin (f_type fld) V S) as [x [Hx [Hle [Hnn _]]]]. rewrite Hx. simpl.
           rewrite (is_pnone_false x (Hnn NE)). destruct (f_required fld); exact Hle.
     - apply forallb_forall. intros [k e] Hin. simpl. apply str_in_In.
       assert (Hk : In k (map fst (obj_req fs' ++ obj_opt fs'))) by (apply in_map_iff; exists (k, e); split; [reflexivity | exact Hin]).
@@ -617,6 +698,20 @@ Section ClassCase.
         apply negb_true_iff in S3. unfold field_value in Hc. rewrite S3 in Hc.
         destruct (find_member (f_name fld) ms) as [v|] eqn:FM; [|discriminate].
         apply find_member_In in FM. apply in_map_iff. exists (f_name fld, v). split; [reflexivity | exact FM].
+    }
+    { rewrite py_encode_obj. apply json_wf_obj_intro; [apply obj_keys_nodup; exact NDf|].
+      intros k e Hin. destruct (obj_vals fs' k e Hin) as [b [x [Hfx He]]]. subst e.
+      unfold fs' in Hfx. apply in_map_iff in Hfx. destruct Hfx as [fld [E Hfld]]. inversion E; subst k b x.
+      unfold field_value. destruct (is_const_field (f_type fld)) eqn:C.
+      - destruct (const_json pctx (f_type fld)) as [c|] eqn:CJ; [|reflexivity].
+        rewrite py_encode_praw. apply (const_json_wf _ _ _ CJ).
+      - destruct (find_member (f_name fld) ms) as [v|] eqn:FM; [|reflexivity].
+        apply find_member_In in FM. destruct (Mem _ _ FM) as [g [G1 [G2 [G3 G4]]]].
+        rewrite (field_by_name_nodup sfs fld Hndf Hfld) in G1. inversion G1; subst g. rewrite C in G4.
+        destruct G4 as [[E' N]|[NE [V S]]].
+        + subst v. unfold null_member_safe in N. apply andb_true_iff in N. destruct N as [N _].
+          apply negb_true_iff in N. rewrite (Hnull p _ N). reflexivity.
+        + destruct (HIH _ _ FM (f_type fld) V S) as [x [Hx [_ [_ Hw]]]]. rewrite Hx. exact Hw. }
   Qed.
 End ClassCase.
 
@@ -811,14 +906,17 @@ Qed.
 (* ---------- the main induction ---------- *)
 Definition rt_ok (pctx : schemas) (j : json) : Prop :=
   forall cur t, json_wf j = true -> py_valid pctx cur t j = true -> py_rt_safe pctx cur t j = true ->
-  exists v, py_from_json pctx cur t j = POk v /\ le_null_u j (py_encode v) = true /\ (j <> JNull -> v <> PNone).
+  exists v, py_from_json pctx cur t j = POk v /\ le_null_u j (py_encode v) = true /\ (j <> JNull -> v <> PNone) /\
+            json_wf (py_encode v) = true.
 
 Lemma raw_ok : forall j, json_wf j = true ->
-  exists v, POk (praw j) = POk v /\ le_null_u j (py_encode v) = true /\ (j <> JNull -> v <> PNone).
+  exists v, POk (praw j) = POk v /\ le_null_u j (py_encode v) = true /\ (j <> JNull -> v <> PNone) /\
+            json_wf (py_encode v) = true.
 Proof.
-  intros j W. exists (praw j). split; [reflexivity|]. split.
+  intros j W. exists (praw j). split; [reflexivity|]. split; [|split].
   - rewrite py_encode_praw. apply le_null_u_refl. exact W.
   - intros H E. apply praw_pnone in E. contradiction.
+  - rewrite py_encode_praw. exact W.
 Qed.
 
 (* a class built from an object whose members satisfy rt_ok *)
@@ -828,7 +926,7 @@ Lemma class_ok : forall pctx p n sfs ms,
   class_valid pctx (py_valid pctx) p sfs (JObj ms) = true ->
   class_safe pctx (py_rt_safe pctx) p sfs (JObj ms) = true ->
   exists x, class_from_json pctx (py_from_json pctx) p n sfs (JObj ms) = POk x /\
-            le_null_u (JObj ms) (py_encode x) = true /\ x <> PNone.
+            le_null_u (JObj ms) (py_encode x) = true /\ x <> PNone /\ json_wf (py_encode x) = true.
 Proof.
   intros pctx p n sfs ms W HF V S. destruct (json_wf_obj ms W) as [Hnd Hw].
   apply (class_case pctx (py_from_json pctx) (py_valid pctx) (py_rt_safe pctx)); try assumption.
@@ -863,46 +961,57 @@ Proof.
   - (* array of non-scalars *)
     destruct (is_scalar_kind et) eqn:SK; [apply raw_ok; exact W|].
     rewrite forallb_forall in V, S. simpl in W. rewrite forallb_forall in W.
-    assert (G : forall x, In x l -> exists v, py_from_json pctx cur et x = POk v /\ le_null_u x (py_encode v) = true).
+    assert (G : forall x, In x l -> exists v, py_from_json pctx cur et x = POk v /\ le_null_u x (py_encode v) = true /\
+                                             json_wf (py_encode v) = true).
     { intros x Hin. rewrite Forall_forall in H. specialize (S x Hin). unfold elem_safe in S. apply andb_true_iff in S. destruct S as [_ S].
-      destruct (H x Hin cur et (W x Hin) (V x Hin) S) as [v [A [B _]]]. exists v. split; assumption. }
+      destruct (H x Hin cur et (W x Hin) (V x Hin) S) as [v [A [B [_ Wv]]]]. exists v. split; [assumption|]. split; assumption. }
     clear H V S W.
     assert (G' : exists vs, pall (map (fun x => py_from_json pctx cur et x) l) = POk vs /\
-                            le_list le_null_u l (map py_encode vs) = true).
+                            le_list le_null_u l (map py_encode vs) = true /\ forallb json_wf (map py_encode vs) = true).
     { induction l as [|x r IH]; simpl.
-      - exists []. split; reflexivity.
-      - destruct (G x (or_introl eq_refl)) as [v [A B]]. rewrite A.
-        destruct IH as [vs [C D]]; [intros y Hy; apply G; right; exact Hy|].
-        rewrite C. exists (v :: vs). split; [reflexivity|]. simpl. rewrite B, D. reflexivity. }
-    destruct G' as [vs [C D]]. rewrite C. cbv beta iota delta [pbind]. exists (PList vs). split; [reflexivity|]. split.
-    + change (py_encode (PList vs)) with (JArr (map py_encode vs)). rewrite le_null_u_arr. exact D.
+      - exists []. split; [reflexivity|]. split; reflexivity.
+      - destruct (G x (or_introl eq_refl)) as [v [A [B Wv]]]. rewrite A.
+        destruct IH as [vs [C [D Ws]]]; [intros y Hy; apply G; right; exact Hy|].
+        rewrite C. exists (v :: vs). split; [reflexivity|]. simpl. rewrite B, D, Wv, Ws. split; reflexivity. }
+    destruct G' as [vs [C [D Ws]]]. rewrite C. cbv beta iota delta [pbind]. exists (PList vs). split; [reflexivity|].
+    change (py_encode (PList vs)) with (JArr (map py_encode vs)). split; [|split].
+    + rewrite le_null_u_arr. exact D.
     + intros _ E. discriminate.
+    + exact Ws.
   - (* object: class *)
     destruct (struct_fields pctx p n); [|discriminate].
-    destruct (class_ok pctx p n sfs ms W H V S) as [x [A [B C]]]. exists x. split; [exact A|]. split; [exact B|]. intros _. exact C.
+    destruct (class_ok pctx p n sfs ms W H V S) as [x [A [B [C Wx]]]]. exists x. split; [exact A|]. split; [exact B|].
+    split; [intros _; exact C | exact Wx].
   - (* map of non-scalars *)
     destruct (is_scalar_kind vt) eqn:SK; [apply raw_ok; exact W|].
     destruct (json_wf_obj ms W) as [Hnd Hw].
     rewrite forallb_forall in V, S.
-    assert (G : forall k x, In (k, x) ms -> exists v, py_from_json pctx cur vt x = POk v /\ le_null_u x (py_encode v) = true).
+    assert (G : forall k x, In (k, x) ms -> exists v, py_from_json pctx cur vt x = POk v /\
+                                                   (le_null_u x (py_encode v) = true /\ json_wf (py_encode v) = true)).
     { intros k x Hin. rewrite Forall_forall in H. specialize (S (k, x) Hin). unfold elem_safe in S. apply andb_true_iff in S. destruct S as [_ S].
-      destruct (H (k, x) Hin cur vt (Hw k x Hin) (V (k, x) Hin) S) as [v [A [B _]]]. exists v. split; assumption. }
+      destruct (H (k, x) Hin cur vt (Hw k x Hin) (V (k, x) Hin) S) as [v [A [B [_ Wv]]]]. exists v. split; [assumption|]. split; assumption. }
     clear H V S W Hw.
     assert (G' : exists kvs, pall (map (fun kv => pbind (py_from_json pctx cur vt (snd kv)) (fun x => POk (fst kv, x))) ms) = POk kvs /\
                              map fst kvs = map fst ms /\
-                             forall k a, In (k, a) ms -> exists v, In (k, v) kvs /\ le_null_u a (py_encode v) = true).
+                             (forall k a, In (k, a) ms -> exists v, In (k, v) kvs /\ le_null_u a (py_encode v) = true) /\
+                             (forall k v, In (k, v) kvs -> json_wf (py_encode v) = true)).
     { clear Hnd. induction ms as [|[k x] r IH]; simpl.
-      - exists []. split; [reflexivity|]. split; [reflexivity|]. intros k a F. contradiction.
-      - destruct (G k x (or_introl eq_refl)) as [v [A B]]. rewrite A. simpl.
-        destruct IH as [kvs [C [D E]]]; [intros k' y Hy; apply (G k'); right; exact Hy|].
-        rewrite C. exists ((k, v) :: kvs). split; [reflexivity|]. split; [simpl; rewrite D; reflexivity|].
-        intros k' a [Heq|Hin].
-        + inversion Heq; subst. exists v. split; [left; reflexivity | exact B].
-        + destruct (E k' a Hin) as [v' [F1 F2]]. exists v'. split; [right; exact F1 | exact F2]. }
-    destruct G' as [kvs [C [D E]]]. rewrite C. cbv beta iota delta [pbind].
+      - exists []. split; [reflexivity|]. split; [reflexivity|]. split; intros k a F; contradiction.
+      - destruct (G k x (or_introl eq_refl)) as [v [A [B Wv]]]. rewrite A. simpl.
+        destruct IH as [kvs [C [D [E Wk]]]]; [intros k' y Hy; apply (G k'); right; exact Hy|].
+        rewrite C. exists ((k, v) :: kvs). split; [reflexivity|]. split; [simpl; rewrite D; reflexivity|]. split.
+        + intros k' a [Heq|Hin].
+          * inversion Heq; subst. exists v. split; [left; reflexivity | exact B].
+          * destruct (E k' a Hin) as [v' [F1 F2]]. exists v'. split; [right; exact F1 | exact F2].
+        + intros k' v' [Heq|Hin]; [inversion Heq; subst; exact Wv | apply (Wk k' v' Hin)]. }
+    destruct G' as [kvs [C [D [E Wk]]]]. rewrite C. cbv beta iota delta [pbind].
     assert (Hnd' : NoDup (map fst kvs)) by (rewrite D; exact Hnd).
-    rewrite (dict_of_nodup kvs Hnd'). exists (PDict kvs). split; [reflexivity|]. split; [|intros _ F; discriminate].
+    rewrite (dict_of_nodup kvs Hnd'). exists (PDict kvs). split; [reflexivity|].
     change (py_encode (PDict kvs)) with (JObj (map (fun kv => (fst kv, py_encode (snd kv))) kvs)).
+    split; [|split; [intros _ F; discriminate|]].
+    2:{ apply json_wf_obj_intro; [rewrite map_map; simpl; exact Hnd'|].
+        intros k e Hin. apply in_map_iff in Hin. destruct Hin as [[k' v'] [Heq Hin]]. simpl in Heq. inversion Heq as [[Hk He]].
+        apply (Wk k' v' Hin). }
     rewrite le_null_u_obj. apply andb_true_iff. split.
     + apply le_members_intro. intros k a Hin. destruct (E k a Hin) as [v [F1 F2]].
       assert (FM : find_member k (map (fun kv => (fst kv, py_encode (snd kv))) kvs) = Some (py_encode v)).
@@ -924,8 +1033,8 @@ Proof.
     destruct (alist_find (d_mapping dj) s) as [n|] eqn:AF; [|discriminate].
     unfold disj_target. rewrite CA, AF.
     destruct (struct_fields pctx (pkg_of_branch dj cur n) n) as [sfs|]; [|discriminate].
-    destruct (class_ok pctx (pkg_of_branch dj cur n) n sfs ms W H V S) as [x [A [B C]]].
-    exists x. split; [exact A|]. split; [exact B|]. intros _. exact C.
+    destruct (class_ok pctx (pkg_of_branch dj cur n) n sfs ms W H V S) as [x [A [B [C Wx]]]].
+    exists x. split; [exact A|]. split; [exact B|]. split; [intros _; exact C | exact Wx].
 Qed.
 
 (* ---------- C11, part 1 ---------- *)
@@ -939,6 +1048,19 @@ Proof.
   destruct (struct_fields pctx p n); [|discriminate].
   destruct (rt_ok_all pctx d p (TRef attrs0 p n) W V2 S) as [v [A [B _]]].
   rewrite A. exact B.
+Qed.
+
+(* the output has no duplicate member names either *)
+Theorem py_roundtrip_wf : forall pctx p n d e,
+  json_wf d = true -> py_valid_object pctx p n d = true -> py_rt_safe_object pctx p n d = true ->
+  py_roundtrip pctx p n d = POk e -> le_null_u d e = true /\ json_wf e = true.
+Proof.
+  intros pctx p n d e W V S R. unfold py_valid_object in V. apply andb_true_iff in V. destruct V as [V V2].
+  apply andb_true_iff in V. destruct V as [V0 V1]. unfold is_class in V0.
+  unfold py_roundtrip, py_decode_object in R.
+  destruct (struct_fields pctx p n); [|discriminate].
+  destruct (rt_ok_all pctx d p (TRef attrs0 p n) W V2 S) as [v [A [B [_ Wv]]]].
+  rewrite A in R. simpl in R. inversion R; subst e. split; assumption.
 Qed.
 
 (* the full statement is false: an optional struct given as an explicit null (accepted by the schema, and
